@@ -802,7 +802,7 @@ int main(int argc, char **argv) {
         for (size_t i = 0; i < a.samples.size() && i < 5; i++) j << (i ? "," : "") << "\n   \"" << jesc(a.samples[i]) << "\"";
         if (a.samples.empty()) j << "\"(no non-trivial run in this batch)\"";
         j << "\n  ],\n";
-        j << "  \"runs_per_hour\": " << (uint64_t)(t_search > 0 ? a.runs / t_search * 3600.0 : 0) << ",\n  \"simulated_seconds\": " << a.st.sim_ms / 1000 << ",\n";
+        j << "  \"runs_per_hour\": " << (uint64_t)(t_search > 0 ? a.runs / t_search * 3600.0 : 0) << ",\n  \"simulated_seconds\": " << a.st.sim_ms / 1000 << ",\n  \"simulated_seconds_note\": \"per run capped at 24 h (clock jumps of 2^15..2^32 s are generated on purpose)\",\n";
         j << "  \"deliveries\": " << a.st.deliveries << ",\n  \"ticks\": " << a.st.ticks << ",\n  \"api_operations\": " << a.st.api_ops << ",\n  \"frames_transmitted\": " << a.st.txs << ",\n  \"events\": " << a.st.events << ",\n";
         j << "  \"faults_fired\": {";
         for (int i = 0; i < F_KIND_MAX; i++) j << (i ? "," : "") << "\"" << fault_name(i) << "\":" << a.st.fault_fired[i];
